@@ -795,6 +795,15 @@ impl Prop for C17 {
         match &sc.op {
             FOp::RoundTrip { reads, offset } => {
                 sig.u64(1);
+                sig.u64(*offset as u64);
+                sig.u64(reads.iter().fold(0u64, |a, w| a | match w {
+                    DiskEv::Short(k) if *k < 4 => 1,
+                    DiskEv::Short(_) => 16,
+                    DiskEv::Interrupted => 2,
+                    DiskEv::Eio => 4,
+                    DiskEv::Full => 8,
+                }));
+                sig.u64(reads.len().min(32) as u64);
                 rep.nontrivial = !reads.is_empty() || *offset > 0;
                 if *offset > 0 {
                     if let Ok(p) = &base {
@@ -894,6 +903,8 @@ impl Prop for C17 {
             },
             FOp::Truncations { cuts } => {
                 sig.u64(2);
+                sig.u64(cuts.len().min(64) as u64);
+                sig.u64(len as u64 % 97);
                 if base.is_err() {
                     rep.violations.push(v("file.valid_rejected", format!("{} a canonical {}-byte file was rejected: {:?}", tag, len, base.as_ref().err())));
                 } else {
@@ -934,6 +945,19 @@ impl Prop for C17 {
             },
             FOp::SaveCrash { writes, durable, tail } => {
                 sig.u64(4);
+                sig.u64(match tail {
+                    Tail::Cut => 0,
+                    Tail::Zeros => 1,
+                    Tail::Stale(_) => 2,
+                });
+                // where the crash lands relative to the file (16 buckets) and how the disk behaved
+                sig.u64(durable.map(|k| (k * 16 / len.max(1)) as u64 + 1).unwrap_or(0));
+                sig.u64(writes.iter().fold(0u64, |a, w| a | match w {
+                    DiskEv::Short(_) => 1,
+                    DiskEv::Interrupted => 2,
+                    DiskEv::Eio => 4,
+                    DiskEv::Full => 8,
+                }));
                 match &base {
                     Err(e) => rep.violations.push(v("file.valid_rejected", format!("{} a canonical {}-byte file was rejected: {}", tag, len, e))),
                     Ok(p) => {
@@ -1018,7 +1042,8 @@ impl Prop for C17 {
             },
             FOp::Hostile { reads } => {
                 sig.u64(5);
-                sig.write(sc.note.split(' ').next().unwrap_or("").as_bytes());
+                sig.write(sc.note.as_bytes());
+                sig.u64(len as u64 % 97);
                 rep.probe("hostile_inputs");
                 if base.is_ok() {
                     rep.probe("hostile_accepted");
@@ -1133,7 +1158,7 @@ impl Prop for C17 {
     }
 
     fn rule(&self) -> String {
-        "Each case is a generated canonical PTH or SMX image (0..400 nodes / 0..120 objects with 0..60 points and triangles / 0..50 checkpoints; numeric payloads drawn from extreme integers and arbitrary float bit patterns incl. quiet and signalling NaNs, infinities, -0.0; ASCII track names) plus one operation: round trip through a disk with short reads / EINTR / EIO; every truncation point (all for files <= 1500 bytes, structural and sampled ones above); save through a disk with short writes / EINTR / EIO / ENOSPC, crash after k durable bytes with the survivor being a clean prefix, a zero-filled tail or stale bytes of another file, then re-open and parse; byzantine files (random bytes, count fields set to -1 / i32::MAX / i32::MIN / count+1 / large values, bit flips, trailing garbage); real temporary files through from_file / from_pathbuf and a missing path. The sweep cuts the two shipped sample files. Every parse runs under catch_unwind with the peak allocation measured (bound 64 x input length + 64 KiB). All cases count as non-trivial except fault-free round trips; distinct = (format, log2 size, operation, first mutation kind).".into()
+        "Each case is a generated canonical PTH or SMX image (0..400 nodes / 0..120 objects with 0..60 points and triangles / 0..50 checkpoints; numeric payloads drawn from extreme integers and arbitrary float bit patterns incl. quiet and signalling NaNs, infinities, -0.0; ASCII track names) plus one operation: round trip through a disk with short reads / EINTR / EIO; every truncation point (all for files <= 1500 bytes, structural and sampled ones above); save through a disk with short writes / EINTR / EIO / ENOSPC, crash after k durable bytes with the survivor being a clean prefix, a zero-filled tail or stale bytes of another file, then re-open and parse; byzantine files (random bytes, count fields set to -1 / i32::MAX / i32::MIN / count+1 / large values, bit flips, trailing garbage); real temporary files through from_file / from_pathbuf and a missing path. The sweep cuts the two shipped sample files. Every parse runs under catch_unwind with the peak allocation measured (bound 64 x input length + 64 KiB). All cases count as non-trivial except fault-free round trips at offset 0; distinct = (format, log2 size, operation, and per operation: disk fault kinds and script length / crash position bucket and tail kind / number of cut points / the exact mutation list).".into()
     }
     fn assumptions(&self) -> Vec<String> {
         vec![
